@@ -421,6 +421,9 @@ pub struct GenOpts {
     /// Per cent of the address records of out-of-zone name-server hosts that
     /// carry TTL 0 (good for the transaction in progress, never cached).
     pub zero_ttl_outside_ns_addresses: u8,
+    /// The TTL those records get (0: usable once, never cached; 1: cached, but
+    /// served by the cache for less than a second, so looked up again and again).
+    pub short_ttl_value: u32,
 }
 
 impl Default for GenOpts {
@@ -436,6 +439,7 @@ impl Default for GenOpts {
             ttl_choices: vec![300],
             mutual_sibling_ns: false,
             zero_ttl_outside_ns_addresses: 0,
+            short_ttl_value: 0,
         }
     }
 }
@@ -647,7 +651,7 @@ pub fn generate(r: &mut Rng, opts: &GenOpts) -> Universe {
                     && !in_zone_ns.iter().any(|h| names_equal(h, &rec.owner))
                     && r.below(100) < u64::from(opts.zero_ttl_outside_ns_addresses)
                 {
-                    rec.ttl = 0;
+                    rec.ttl = opts.short_ttl_value;
                 }
             }
         }
